@@ -1,0 +1,13 @@
+//go:build verif
+
+package goverter
+
+// VerifGenerateRaw exposes the in-memory generation entry point (verification hook).
+func VerifGenerateRaw(c *GenerateConfig) (map[string][]byte, error) {
+	return generateConvertersRaw(c)
+}
+
+// VerifWriteFiles exposes the file writer (verification hook).
+func VerifWriteFiles(files map[string][]byte) error {
+	return writeFiles(files)
+}
